@@ -26,18 +26,26 @@ var (
 )
 
 // normOp is one entry of the common alphabet.
-func normFromFacade(tr []TraceOp) []string {
+func normFromFacade(root string, tr []TraceOp) []string {
 	var out []string
+	clean := func(p string) string {
+		if filepath.IsAbs(p) {
+			if r, err := filepath.Rel(root, filepath.Clean(p)); err == nil {
+				return r
+			}
+		}
+		return filepath.Clean(p)
+	}
 	for _, op := range tr {
 		if op.Err != "" {
 			continue
 		}
-		p := filepath.Clean(op.Path)
+		p := clean(op.Path)
 		switch op.Kind {
 		case "rename":
 			parts := strings.SplitN(op.Path, " -> ", 2)
 			if len(parts) == 2 {
-				out = append(out, "rename "+filepath.Clean(parts[0])+" "+filepath.Clean(parts[1]))
+				out = append(out, "rename "+clean(parts[0])+" "+clean(parts[1]))
 			}
 		case "opentrunc", "openw":
 			out = append(out, "openw "+p)
@@ -55,7 +63,7 @@ func normFromFacade(tr []TraceOp) []string {
 			if op.Kind == "symlink" {
 				parts := strings.SplitN(op.Path, " -> ", 2)
 				if len(parts) == 2 {
-					p = filepath.Clean(parts[1])
+					p = clean(parts[1])
 				}
 			}
 			out = append(out, op.Kind+" "+p)
@@ -64,7 +72,49 @@ func normFromFacade(tr []TraceOp) []string {
 	return out
 }
 
+// unescape undoes strace's C-style escaping of strings and descriptor paths (\ooo octal
+// for non-ASCII bytes, \" \\ \n \t …).
+func unescape(s string) string {
+	if !strings.Contains(s, "\\") {
+		return s
+	}
+	var b []byte
+	for i := 0; i < len(s); i++ {
+		c := s[i]
+		if c != '\\' || i+1 >= len(s) {
+			b = append(b, c)
+			continue
+		}
+		i++
+		switch s[i] {
+		case 'n':
+			b = append(b, '\n')
+		case 't':
+			b = append(b, '\t')
+		case 'r':
+			b = append(b, '\r')
+		case 'v':
+			b = append(b, '\v')
+		case 'f':
+			b = append(b, '\f')
+		case '0', '1', '2', '3', '4', '5', '6', '7':
+			v, n := 0, 0
+			for n < 3 && i < len(s) && s[i] >= '0' && s[i] <= '7' {
+				v = v*8 + int(s[i]-'0')
+				i++
+				n++
+			}
+			i--
+			b = append(b, byte(v))
+		default:
+			b = append(b, s[i])
+		}
+	}
+	return string(b)
+}
+
 func rel(root, p string) (string, bool) {
+	p = unescape(p)
 	if !filepath.IsAbs(p) {
 		p = filepath.Join(root, p)
 	}
@@ -75,9 +125,36 @@ func rel(root, p string) (string, bool) {
 	return r, true
 }
 
+// joinUnfinished merges strace's "<unfinished ...>" / "<... name resumed>" pairs (another
+// thread entered a traced call in between) into single lines, at the position of the
+// resumption, which is when the call completed.
+func joinUnfinished(log string) []string {
+	pending := map[string]string{}
+	var out []string
+	for _, line := range strings.Split(log, "\n") {
+		pid, rest, ok := strings.Cut(strings.TrimLeft(line, " "), " ")
+		if !ok {
+			continue
+		}
+		rest = strings.TrimLeft(rest, " ")
+		if strings.HasSuffix(rest, "<unfinished ...>") {
+			pending[pid] = strings.TrimSuffix(rest, "<unfinished ...>")
+			continue
+		}
+		if strings.HasPrefix(rest, "<... ") {
+			if i := strings.Index(rest, " resumed>"); i >= 0 {
+				rest = pending[pid] + rest[i+len(" resumed>"):]
+				delete(pending, pid)
+			}
+		}
+		out = append(out, pid+"  "+rest)
+	}
+	return out
+}
+
 func normFromStrace(root string, log []byte) []string {
 	var out []string
-	for _, line := range strings.Split(string(log), "\n") {
+	for _, line := range joinUnfinished(string(log)) {
 		m := reSyscall.FindStringSubmatch(line)
 		if m == nil {
 			continue
@@ -174,7 +251,7 @@ func Fidelity(r *Runner, realBin, base string, tape *sim.Tape) (diff string, sha
 	if err != nil {
 		return "", shape, 0, err
 	}
-	fac := normFromFacade(co.Trace)
+	fac := normFromFacade(root, co.Trace)
 	// the unmodified binary on a fresh copy of the tree
 	os.RemoveAll(root)
 	if err := c.Tree.Materialise(root); err != nil {
